@@ -60,10 +60,10 @@ const (
 )
 
 type Event struct {
-	K       EvKind
-	Space   string `json:",omitempty"`
-	Local   string `json:",omitempty"`
-	Value   string `json:",omitempty"`
+	K     EvKind
+	Space string `json:",omitempty"`
+	Local string `json:",omitempty"`
+	Value string `json:",omitempty"`
 }
 
 func (e Event) String() string {
